@@ -108,5 +108,23 @@ PROPS['C10'] = Prop(
     assumptions=['objects are placement-constructed into vf_havoc()ed storage, so a member a constructor forgets reads as arbitrary bytes chosen by the solver',
                  'Threading = instrumented policy (mutex, atomics, condition variable) so waitFor(0) is executed through the real wait_for predicate loop'])
 
+_RM = '%s on %s: listeners L0, W (wrapped), L2; %d top-level triggers%s; W and L0 may re-dispatch their own event (nested trigger budget %d); helper object destroyed before the first trigger on one branch; %s'
+def _rm(name, tk, rk, tt, nb, tgt, **kw):
+    what = ['CounterRemover', 'ConditionalRemover (condition takes the arguments)', 'ConditionalRemover (condition takes no arguments)'][rk]
+    sym = 'trigger count n is a fully symbolic 32-bit int' if rk == 0 else 'condition outcome is a symbolic bit per evaluation'
+    oc = (4,) if rk == 0 else (1, 2, 3)
+    if tk != 2: oc = oc + (6,)
+    return Run(name, 'removers.cpp', {'TK': tk, 'RK': rk, 'TT': tt, 'NB': nb}, covers=7, optional_covers=oc, bounds=_RM % (what, tgt, tt, ' (alternately direct and enqueue+process)' if tk == 2 else '', nb, sym), **kw)
+PROPS['C16'] = Prop(
+    quick=[_rm('counter_cl', 0, 0, 4, 1, 'CallbackList'), _rm('counter_disp', 1, 0, 4, 1, 'EventDispatcher'), _rm('counter_queue', 2, 0, 4, 1, 'EventQueue'),
+           _rm('cond_args_cl', 0, 1, 4, 1, 'CallbackList'), _rm('cond_noargs_disp', 1, 2, 4, 1, 'EventDispatcher'), _rm('cond_args_queue', 2, 1, 3, 1, 'EventQueue'),
+           _rm('counter_hdisp', 3, 0, 3, 1, 'HeterEventDispatcher')],
+    thorough=[_rm('counter_cl_t', 0, 0, 5, 2, 'CallbackList', budget_s=1700), _rm('counter_disp_t', 1, 0, 5, 2, 'EventDispatcher', budget_s=1700), _rm('counter_queue_t', 2, 0, 5, 2, 'EventQueue', budget_s=1700),
+              _rm('cond_args_cl_t', 0, 1, 5, 2, 'CallbackList', budget_s=1700), _rm('cond_noargs_cl_t', 0, 2, 5, 2, 'CallbackList', budget_s=1700),
+              _rm('cond_noargs_disp_t', 1, 2, 5, 2, 'EventDispatcher', budget_s=1700), _rm('cond_args_queue_t', 2, 1, 5, 2, 'EventQueue', budget_s=1700),
+              _rm('counter_hdisp_t', 3, 0, 4, 2, 'HeterEventDispatcher', budget_s=1700), _rm('cond_args_hdisp_t', 3, 1, 4, 2, 'HeterEventDispatcher', budget_s=1700)],
+    outside='more than TT top-level triggers (TT+NB triggers separate n<=1, 2, ..., TT+NB, larger); several wrapped listeners at once; threads',
+    assumptions=['Callback type is the default std::function (the removers wrap the listener in their own functor type); engine checks add/sub nsw, so signed overflow of the trigger count is a violation'])
+
 HOOK_COMMITS = []
 EBMC_PROPS = []
